@@ -2,6 +2,8 @@ SPECIFICATION Spec
 CONSTANTS
   MaxOps = 6
   Batches = {1, 2, 3, 4}
+  MaxSess = 2
+  Descs <- McDescs
   Dev = {}
 INVARIANT VisiblePrefix
 INVARIANT AtBoundary
@@ -9,4 +11,5 @@ INVARIANT ClosedCommitted
 INVARIANT OneColumnPerField
 INVARIANT VisibleSchemaOK
 PROPERTY VisChangesOnlyAtBoundary
+PROPERTY ColumnsOnlyGrow
 CHECK_DEADLOCK FALSE
